@@ -659,7 +659,7 @@ fn gen_pe(rng: &mut Rng) -> String {
 	let mut s = Sec { name: [0; 8], va: 0x1000, vs: len as u32 - 0x1000, prd: 0x1000, srd: len as u32 - 0x1000, chars: 0x4000_0040 };
 	s.name[..5].copy_from_slice(b".rsrc");
 	spec.secs.push(s);
-	let img = Image { len, fill: 0, hdr: spec.header_bytes(), pokes: vec![(rva as usize, lay.bytes.clone())] };
+	let img = Image { len, fill: 0, hdr: scrambled_header(&spec, rng), pokes: vec![(rva as usize, lay.bytes.clone())] };
 	let _ = root;
 	format!("pe place={} rva={} size={} depth=32 budget={} {}", *rng.pick(&[0usize, 8]), rva, size, lay.bytes.len() / 8, img.encode())
 }
